@@ -485,6 +485,7 @@ package mqtt
 // verif:loop mqtt.Server.publishToSubscribers 1
 //@ entry C40-the-inline-subscriptions-of-the-result-are-the-ones-called: rangemap1 == subscribers.InlineSubscriptions
 //@ invariant s.inlineClient == old(s.inlineClient) && s.Clients != nil && s.Log != nil
+//@ invariant C40-every-inline-subscription-visited-so-far-has-been-called-once: ninlinecalls == old(ninlinecalls) + nvisited1
 // verif:loop mqtt.Server.publishToSubscribers 2
 //@ entry C03-the-recipients-are-the-client-subscriptions-of-the-result: rangemap2 == subscribers.Subscriptions
 //@ invariant s.Clients != nil && s.Log != nil
@@ -1222,7 +1223,10 @@ package mqtt
 // verif:ghost var ninlinesub int
 // verif:ghost var ninlineunsub int
 // verif:func mqtt.Server.InjectPacket trusted modifies=all
+// every call of an inline handler is counted (ghost)
+// verif:ghost var ninlinecalls int
 // verif:func mqtt.InlineSubFn trusted modifies=all params=cl,sub,pk
+//@ axiom ninlinecalls == old(ninlinecalls) + 1
 // verif:func mqtt.Server.Publish modifies=all
 //@ requires s.Options != nil
 //@ ensures C40-nothing-is-published-while-the-inline-client-is-disabled: !s.Options.InlineClient ==> r0 != nil
